@@ -121,11 +121,111 @@ def check(ctx):
                 ok = bool(rl) and any(isinstance(a, ast.Constant) and a.value == "}" for c in rl for a in c.args)
     ctx.instance("C11-R2", kr.fq)
     ctx.ob("C11-R2", kr.fq, "the reader's ':{' branch reads pairs up to '}'", ok, node=kr.node, construct="reader dictionary delimiters")
+    ctx.rule("C11-R3", "the reader entry points (.r, .rs) pass the text unmodified, from offset 0, with the same reader options (negative numbers enabled)")
+    ctx.rule("C11-R4", "TABLE-AGREE(token forms): symbol ':x', character '0cx', string with doubled quotes, blank-separated bracketed lists - writer constants versus the reader's dispatch")
+    _entry_points(ctx, repo, cg)
+    _token_forms(ctx, repo)
+
+
+def _entry_points(ctx, repo, cg):
+    """C11-R3: the reader entry points hand the text to the reader unmodified and agree on the reader options"""
+    sysm = repo.module("sys_fn")
+    sites = []
+    for f in sysm.funcs.values():
+        if f.parent is None and f.name.startswith("eval_sys_"):
+            for c in calls_in(f.node):
+                if callee_name(c) == "kg_read_array":
+                    sites.append((f, c))
+    ctx.floor("C11-R3", "reader entry points (.r, .rs)", len(sites), 2)
+    opts = {}
+    for f, c in sites:
+        ctx.instance("C11-R3", f.fq, src(c)[:70])
+        a0 = c.args[0] if c.args else None
+        # the text is the function's parameter, or exactly what was read from the channel (a local bound from .read())
+        ok = isinstance(a0, ast.Name)
+        if ok and a0.id not in f.params():
+            defs = [n for n in walk_local(f.node) if isinstance(n, ast.Assign) and any(isinstance(t, ast.Name) and t.id == a0.id for t in n.targets)]
+            ok = len(defs) == 1 and isinstance(defs[0].value, ast.Call) and isinstance(defs[0].value.func, ast.Attribute) and defs[0].value.func.attr == "read" and not defs[0].value.args
+        ctx.ob("C11-R3", f.fq, "the reader is given the text exactly as received (no strip/replace/slicing before parsing)", ok, node=c, construct="reader input is the unmodified text",
+               msg=f"{f.name} transforms the text before reading it (`{src(a0) if a0 is not None else '?'}`): written forms in which that transformation removes significant characters (a blank or newline character atom `0c `, leading/trailing blanks) no longer read back")
+        start = c.args[1] if len(c.args) > 1 else None
+        ctx.ob("C11-R3", f.fq, "reading starts at offset 0", isinstance(start, ast.Constant) and start.value == 0, node=c, construct="reader start offset")
+        opts[f.name] = {k.arg: src(k.value) for k in c.keywords if k.arg in ("read_neg", "ignore_newline")}
+    if len(opts) >= 2:
+        vals = list(opts.values())
+        ok = all(v == vals[0] for v in vals) and all(v.get("read_neg") == "True" for v in vals)
+        ctx.ob("C11-R3", "sys_fn", f"all reader entry points pass the same reader options, negative numbers enabled ({opts})", ok, construct="reader options agree between entry points",
+               msg=f"the reader entry points disagree on the reader options ({opts}): the same written text (e.g. a negative number) reads back as a number through one and as the minus operator through the other")
+
+
+def _token_forms(ctx, repo):
+    """C11-R4: the readable form each writer function emits is the form the reader's dispatch recognises"""
+    w = repo.module("writer")
+    kr = repo.fn("parser:kg_read")
+    # what the reader dispatches on (independent of variable names)
+    eqc, pairs, called, list_delims = set(), set(), set(), set()
+    for n in ast.walk(kr.node):
+        if isinstance(n, ast.Compare) and len(n.ops) == 1 and isinstance(n.ops[0], ast.Eq) and isinstance(n.comparators[0], ast.Constant) and isinstance(n.comparators[0].value, str):
+            eqc.add(n.comparators[0].value)
+        if isinstance(n, ast.Call):
+            cn = callee_name(n)
+            if cn == "safe_eq" and len(n.args) == 2 and isinstance(n.args[1], ast.Constant):
+                eqc.add(n.args[1].value)
+            if cn == "cmatch2" and len(n.args) == 4 and all(isinstance(a, ast.Constant) for a in n.args[2:]):
+                pairs.add((n.args[2].value, n.args[3].value))
+            if cn in ("read_sym", "read_char", "read_string", "read_list", "read_num"):
+                called.add(cn)
+            if cn == "read_list" and len(n.args) >= 2 and isinstance(n.args[1], ast.Constant):
+                list_delims.add(n.args[1].value)
+
+    def consts(fq):
+        f = repo.fn(fq)
+        out = []
+        for n in ast.walk(f.node):
+            if isinstance(n, ast.JoinedStr):
+                out.append("".join(v.value if isinstance(v, ast.Constant) else "{}" for v in n.values))
+            elif isinstance(n, ast.Constant) and isinstance(n.value, str) and len(n.value) <= 3:
+                out.append(n.value)
+        return out
+    rows = [
+        ("symbol", "writer:kg_write_symbol", lambda c: ":{}" in c, ":" in eqc and "read_sym" in called, "':' then a letter or '.' -> read_sym"),
+        ("character", "writer:kg_write_char", lambda c: "0c{}" in c, ("0", "c") in pairs and "read_char" in called, "'0c' -> read_char"),
+        ("string", "writer:kg_write_string", lambda c: c.count('"') >= 2, '"' in eqc and "read_string" in called, "'\"' -> read_string"),
+        ("list", "writer:kg_write_list", lambda c: "[" in c and "]" in c, "[" in eqc and "]" in list_delims, "'[' -> read_list up to ']'"),
+    ]
+    for kind, wfq, wtest, rok, rdesc in rows:
+        cs = consts(wfq)
+        ctx.instance("C11-R4", wfq, kind)
+        ctx.ob("C11-R4", wfq, f"{kind}: the writer emits the form the reader dispatches on ({rdesc})", wtest(cs) and rok, node=repo.fn(wfq).node, construct=f"{kind} token form agreement",
+               msg=f"the readable form of a {kind} (writer constants {cs}) is not the form kg_read recognises ({rdesc}): written {kind}s do not read back")
+    # quote doubling: the writer doubles '"' inside strings, the string reader un-doubles
+    ws = repo.fn("writer:kg_write_string")
+    def is_quote_test(t):
+        return isinstance(t, ast.Compare) and len(t.ops) == 1 and isinstance(t.ops[0], ast.Eq) and isinstance(t.comparators[0], ast.Constant) and t.comparators[0].value == '"'
+    doubles = any(isinstance(n, ast.If) and is_quote_test(n.test) and any(isinstance(c, ast.Call) and callee_name(c) == "append" and c.args and isinstance(c.args[0], ast.Constant) and c.args[0].value == '"'
+                                                                         for s_ in n.body for c in ast.walk(s_)) for n in walk_local(ws.node))
+    rs = repo.fn("parser:read_string")
+    undoubles = any(isinstance(n, ast.If) and is_quote_test(n.test) and any(isinstance(x, ast.If) and any(isinstance(c, ast.Call) and callee_name(c) == "cmatch" and len(c.args) == 3 and
+                    isinstance(c.args[2], ast.Constant) and c.args[2].value == '"' for c in ast.walk(x.test)) for x in n.body) for n in walk_local(rs.node))
+    ctx.instance("C11-R4", ws.fq, "quote doubling")
+    ctx.ob("C11-R4", ws.fq, "embedded quotes: the writer doubles them and the string reader accepts a doubled quote as one quote", doubles and undoubles, node=ws.node, construct="quote doubling agreement",
+           msg="writer and reader disagree on how a double quote inside a string is represented")
+    # list elements are separated by blanks, which the list reader skips
+    wl = repo.fn("writer:kg_write_list")
+    sep = any(isinstance(c, ast.Call) and callee_name(c) == "join" and isinstance(c.func.value, ast.Constant) and c.func.value.value == " " for c in ast.walk(wl.node))
+    rl = repo.fn("parser:read_list")
+    skips = sum(1 for c in calls_in(rl.node) if callee_name(c) == "skip") >= 2
+    ctx.ob("C11-R4", wl.fq, "list elements are written blank-separated and the list reader skips blanks between elements", sep and skips, node=wl.node, construct="list separator agreement")
 
 
 SEEDS = [
     Seed("rs-evaluates-literal", "refactor", "sys_fn", "    _, a = kg_read_array(x, 0, klong._backend, module=klong.current_module(), read_neg=True)\n    return a",
          "    _, a = kg_read_array(x, 0, klong._backend, module=klong.current_module(), read_neg=True)\n    b = a\n    return a"),
+    Seed("rs-strips-text", "fault", "sys_fn", "    _, a = kg_read_array(x, 0, klong._backend, module=klong.current_module(), read_neg=True)\n    return a", "    _, a = kg_read_array(x.strip(), 0, klong._backend, module=klong.current_module(), read_neg=True)\n    return a", rule="C11-R3"),
+    Seed("r-without-read-neg", "fault", "sys_fn", "        i,a = kg_read_array(r, 0, klong._backend, module=klong.current_module(), read_neg=True)", "        i,a = kg_read_array(r, 0, klong._backend, module=klong.current_module())", rule="C11-R3"),
+    Seed("char-prefix-changed", "fault", "writer", '    return c if display else f"0c{c}"', '    return c if display else f"0C{c}"', rule="C11-R4"),
+    Seed("writer-no-quote-doubling", "fault", "writer", "        if c == '\"':\n            arr.append('\"')\n        arr.append(c)", "        arr.append(c)", rule="C11-R4"),
+    Seed("list-comma-separated", "fault", "writer", "    return ''.join(['[', ' '.join([kg_write(q, backend, display=display) for q in x]), ']'])", "    return ''.join(['[', ','.join([kg_write(q, backend, display=display) for q in x]), ']'])", rule="C11-R4"),
     Seed("writer-dict-brace", "fault", "writer", "    return ''.join([':{', ' '.join(", "    return ''.join(['{', ' '.join(", rule="C11-R2"),
     Seed("reader-dict-delim", "fault", "parser", "            i, d = read_list(t, '}', i=i+2, module=module)", "            i, d = read_list(t, ']', i=i+2, module=module)", rule="C11-R2"),
 ]
